@@ -73,4 +73,119 @@ theorem restoreSymlink_propagates_lstat_error (cfg : Cfg) (name : Path) (fi : In
   unfold restoreSymlink
   exact M.bind_error h
 
+/-!
+### C09 (semantic half) — Rollback never reports success unless it restored
+
+`Props/C09.lean` has the structural half ("`.ok false` ⇒ every single step returned ok").  This
+file has the semantic one: for EVERY fault plan in force during Rollback — any primitive call on
+the base or backup filesystem (`Lstat`, `Remove`, `RemoveAll`, `MkdirAll`, `Chmod`, `Chown`,
+`Chtimes`, `Open`, `OpenFile`, and `Stat`/`Read`/`Write`/`Close` on handles) refused, any number of
+times, at any occurrence — if `rollback` returns `.ok false` (Go: `nil`), then every entry of the
+base below its root is what it was before the first operation of the transaction.  Equivalently:
+either Rollback reports an error, or the base is fully restored.
+
+The proof (Lemmas/RestoreF.lean) redoes the phase-by-phase argument of Lemmas/Restore.lean with the
+conclusion "this step returns ok" (there a consequence of the empty fault plan) replaced by the
+hypothesis "this step returned ok" (here a consequence of the `false` flag): `sat_forEachF`,
+`sat_classifyF`, `phase1F`, `phase2F`, `phase3F`, `sat_rollbackF`.  No error is swallowed on the way:
+`ignorePerm` drops only permission errors (injected faults are `.io`), `restoreFile` ignores only
+the error of the deferred `Close` of the backup handle (no effect on the disk), `lexists`
+propagates every error that is not "not found", and a refused existence check in the first loop
+sets `failed`, which is part of the result.
+
+Scope (`_partial`) as for `Props.C01.rollback_restores_linkfree_partial`: link-free trees, covered
+operations.
+-/
+
+
+/-- T09.2 (generic form, for any model of the filesystem contract `Sim`): from a state satisfying
+the transaction invariant, under ANY fault plan, `rollback` returning `.ok false` implies that the
+disk is well-formed and every key of the base view except the root shows its original node. -/
+theorem success_means_restored_generic {cfg : Cfg} (S : Sim cfg) {v0 : View} {w : World}
+    (hinv : Inv S v0 w) :
+    (rollback cfg w).2 = .ok false →
+      S.G (rollback cfg w).1.fs ∧ ∀ k, k ≠ [] → S.view .base (rollback cfg w).1.fs k = v0 k :=
+  (sat_rollbackF (cfg := cfg) hinv).elim
+
+/-- T09.main  "Rollback never returns nil while an entry of the transaction is left unrestored" —
+link-free fragment.  OS model behind two `PrefixFS` layers; any well-formed link-free disk; any
+covered history, itself run under any fault plan (`w.faults` is arbitrary); then Rollback run under
+ANY fault plan `plan`: if it reports success, every entry of the base below its root is what it was
+before the first operation (same paths, types, contents, permission bits, owners, file modification
+times; directory timestamps are erased from the view, the root itself is exempt). -/
+theorem success_means_restored_linkfree_partial (bk kk : Key) (hbk : PKey bk) (hkk : PKey kk)
+    (hne1 : bk ≠ []) (hne2 : kk ≠ []) (hd1 : ¬ bk <+: kk) (hd2 : ¬ kk <+: bk)
+    (w : World) (hg : OSGood bk kk w.fs) (hinfos : w.infos = []) (ops : List Op)
+    (hcov : CoveredHist (osCfg bk kk) (osSim bk kk hbk hkk hne1 hne2 hd1 hd2) w ops)
+    (plan : List Fault) :
+    (rollback (osCfg bk kk) { runOps (osCfg bk kk) w ops with faults := plan }).2 = .ok false →
+    ∀ k, k ≠ [] →
+      ((rollback (osCfg bk kk) { runOps (osCfg bk kk) w ops with faults := plan }).1.fs.get (bk ++ k)).map eraseMt
+        = (w.fs.get (bk ++ k)).map eraseMt :=
+  tx_success_means_restored (S := osSim bk kk hbk hkk hne1 hne2 hd1 hd2) hg hinfos ops hcov plan
+
+/-- T09.main, contrapositive reading: if some entry below the root differs from the original after
+Rollback, Rollback reported an error (it never throws: `rollback_total`). -/
+theorem unrestored_means_error_linkfree_partial (bk kk : Key) (hbk : PKey bk) (hkk : PKey kk)
+    (hne1 : bk ≠ []) (hne2 : kk ≠ []) (hd1 : ¬ bk <+: kk) (hd2 : ¬ kk <+: bk)
+    (w : World) (hg : OSGood bk kk w.fs) (hinfos : w.infos = []) (ops : List Op)
+    (hcov : CoveredHist (osCfg bk kk) (osSim bk kk hbk hkk hne1 hne2 hd1 hd2) w ops)
+    (plan : List Fault) (k : Key) (hk : k ≠ [])
+    (hdiff : ((rollback (osCfg bk kk) { runOps (osCfg bk kk) w ops with faults := plan }).1.fs.get (bk ++ k)).map eraseMt
+        ≠ (w.fs.get (bk ++ k)).map eraseMt) :
+    (rollback (osCfg bk kk) { runOps (osCfg bk kk) w ops with faults := plan }).2 = .ok true := by
+  obtain ⟨b, hb⟩ := BackupFS.rollback_total (osCfg bk kk) { runOps (osCfg bk kk) w ops with faults := plan }
+  cases b with
+  | true => exact hb
+  | false =>
+    exact absurd (success_means_restored_linkfree_partial bk kk hbk hkk hne1 hne2 hd1 hd2 w hg hinfos
+      ops hcov plan hb k hk) hdiff
+
+/-- the same when Rollback runs under the plan the history ran under (no re-planning): the world
+after the history is used as it is -/
+theorem success_means_restored_same_plan_linkfree_partial (bk kk : Key) (hbk : PKey bk) (hkk : PKey kk)
+    (hne1 : bk ≠ []) (hne2 : kk ≠ []) (hd1 : ¬ bk <+: kk) (hd2 : ¬ kk <+: bk)
+    (w : World) (hg : OSGood bk kk w.fs) (hinfos : w.infos = []) (ops : List Op)
+    (hcov : CoveredHist (osCfg bk kk) (osSim bk kk hbk hkk hne1 hne2 hd1 hd2) w ops) :
+    (rollback (osCfg bk kk) (runOps (osCfg bk kk) w ops)).2 = .ok false →
+    ∀ k, k ≠ [] →
+      ((runTx (osCfg bk kk) w ops).fs.get (bk ++ k)).map eraseMt = (w.fs.get (bk ++ k)).map eraseMt :=
+  fun h => (tx_success_means_restored_same_plan (S := osSim bk kk hbk hkk hne1 hne2 hd1 hd2) hg hinfos ops hcov h).2
+
+/-- non-vacuity: the hypotheses hold of an ordinary disk (`/b` with a file and a directory, backup
+root `/k`), a history that overwrites a file and creates another, and a non-empty fault plan for
+Rollback (the first `Remove` of the created file on the base is refused) -/
+example : OSGood [['b']] [['k']] exDisk ∧
+    CoveredHist (osCfg [['b']] [['k']]) osSim_example { fs := exDisk }
+      [.write "/f".toList (O_WRONLY ||| O_TRUNC) 0 "y", .creat "/n".toList "x"] ∧
+    ([⟨⟨.base, "remove", ["/n".toList]⟩, 0⟩] : List Fault) ≠ [] := by
+  refine ⟨osGood_example, ⟨?_, ?_, trivial⟩, by simp⟩
+  · show isAbs _ = true; decide
+  · show isAbs _ = true; decide
+
+/-! ### non-vacuity, concretely (kernel evaluation of the model on the example disk) -/
+
+/-- the example transaction: overwrite `/f`, create `/n` (names relative to the base root `/b`) -/
+def exOps : List Op := [.write "/f".toList (O_WRONLY ||| O_TRUNC) 0 "y", .creat "/n".toList "x"]
+
+/-- Rollback of the example transaction under the fault plan `plan` -/
+def exRollback (plan : List Fault) : World × Except Err Bool :=
+  rollback (osCfg [['b']] [['k']]) { runOps (osCfg [['b']] [['k']]) { fs := exDisk } exOps with faults := plan }
+
+/-- first branch of the property: the `Remove` of the created file is refused; the entry `/b/n` is
+left unrestored — and Rollback reports an error -/
+example : (exRollback [⟨⟨.base, "remove", ["/n".toList]⟩, 0⟩]).2 = .ok true ∧
+    ((exRollback [⟨⟨.base, "remove", ["/n".toList]⟩, 0⟩]).1.fs.get [['b'], ['n']]).isSome = true ∧
+    (exDisk.get [['b'], ['n']]).isSome = false := by decide +kernel
+
+/-- second branch: a primitive call fails during Rollback (the deferred `Close` of the backup handle
+in `restoreFile`, the one error the Go code drops), Rollback reports success — the hypothesis of
+`success_means_restored_linkfree_partial` holds with a plan that fires — and the base is restored -/
+example : (exRollback [⟨⟨.backup, "close", ["/f".toList]⟩, 1⟩]).2 = .ok false ∧
+    (exRollback [⟨⟨.backup, "close", ["/f".toList]⟩, 1⟩]).1.trace.any (fun e => e.failed) = true ∧
+    ((exRollback [⟨⟨.backup, "close", ["/f".toList]⟩, 1⟩]).1.fs.get [['b'], ['f']]).map eraseMt
+      = (exDisk.get [['b'], ['f']]).map eraseMt ∧
+    ((exRollback [⟨⟨.backup, "close", ["/f".toList]⟩, 1⟩]).1.fs.get [['b'], ['n']]).isSome = false := by
+  decide +kernel
+
 end Props.C09
